@@ -139,6 +139,10 @@ pub fn check(r: &mut Report, ss: &[(&'static str, Vec<u8>, Vec<u8>)], refs: &[(O
     let syn = pkt::build(&Spec { src: 1, sport: 40000, dst: 2, dport: 80, flags: SYN, seq: h.client_isn, payload: req[..h.syn_bytes.min(req.len())].to_vec(), ..Spec::default() });
     let synack = pkt::build(&Spec { src: 2, sport: 80, dst: 1, dport: 40000, flags: SYN | ACK, seq: h.server_isn, ack: h.client_isn.wrapping_add(1), ..Spec::default() });
     let frames: Vec<Vec<u8>> = h.segs.iter().map(|s| frame_for(h, req, resp, s)).collect();
+    // every other history is captured on an Ethernet link that shows the padding of short frames and the frame check
+    // sequence behind the IP packet: bytes that are not part of any segment
+    let trailer = (h.segs.iter().map(|s| s.1 + s.2).sum::<usize>() + h.segs.len()) % 2 == 1;
+    let (syn, synack, frames) = if trailer { (pkt::ethernet_with_trailer(&syn), pkt::ethernet_with_trailer(&synack), frames.iter().map(|f| pkt::ethernet_with_trailer(f)).collect()) } else { (syn, synack, frames) };
     r.exec(2 + frames.len() as u64);
     let got = guarded(|| {
         let mut a = HttpSeq::new(None, 8);
